@@ -78,6 +78,11 @@ pub struct Case {
     pub routes: [bool; 3],
     pub grace: u64,
     pub ops: Vec<Op>,
+    /// eleven more registered pairs and eleven more registered vaults (no liquidity, no fees) whose asset
+    /// names sort before the three pairs / vaults under observation: the hub then has more children than
+    /// one default page of the factories' listings
+    #[serde(default)]
+    pub many_children: bool,
 }
 
 fn take_rate() -> BoxedStrategy<TakeRate> {
@@ -139,6 +144,15 @@ impl Hub {
             w.register_native_decimals(d, 6);
         }
         let assets = vec![native("uwhale"), native("uusdc"), token(&tokx), native("uatom")];
+        if c.many_children {
+            w.register_native_decimals("aaz", 6);
+            for i in 0..11 {
+                let d = format!("aaa{}", (b'a' + i as u8) as char);
+                w.register_native_decimals(&d, 6);
+                w.create_pair([native(&d), native("aaz")], pool_fee([0, 0, 0]), PairType::ConstantProduct).map_err(|e| format!("filler pair {i}: {e}"))?;
+                w.create_vault(&native(&d), vault_fee([0, 0, 0])).map_err(|e| format!("filler vault {i}: {e}"))?;
+            }
+        }
         let pf = [c.pair_fees[0].u128(), c.pair_fees[1].u128(), c.pair_fees[2].u128()];
         let pair_assets = vec![[0usize, 1usize], [0, 2], [1, 3]];
         let mut pairs = vec![];
@@ -444,14 +458,16 @@ impl Check for FeePipeline {
             any::<[bool; 3]>(),
             1u64..=4,
             prop::collection::vec(op(), 3..max_ops),
+            proptest::bool::weighted(0.12),
         )
-            .prop_map(|(pf, vf, routes, grace, ops)| Case {
+            .prop_map(|(pf, vf, routes, grace, ops, many_children)| Case {
                 // protocol fee never zero-only so that the pipeline has something to move
                 pair_fees: [Uint128::new(pf[0].max(1_000_000_000_000_000)), Uint128::new(pf[1]), Uint128::new(pf[2])],
                 vault_fees: [Uint128::new(vf[0].max(1_000_000_000_000_000)), Uint128::new(vf[1]), Uint128::zero()],
                 routes,
                 grace,
                 ops,
+                many_children,
             })
             .boxed()
     }
@@ -462,6 +478,9 @@ impl Check for FeePipeline {
         0.05
     }
     fn test(&self, c: &Case, rec: &Rec) -> TResult {
+        if c.many_children {
+            rec.class("hub_with_more_children_than_one_listing_page");
+        }
         let mut h = Hub::build(c).map_err(|e| Fail::new(format!("world build failed: {e}")))?;
         let mut registered = [true; 3];
         let mut nontrivial_epochs = 0;
